@@ -35,7 +35,7 @@ def cls(name):
   return getattr(metric_learn, name)
 
 
-def fast_params(name, d):
+def fast_params(name, d, ds=None):
   """Small iteration budgets (overridable)."""
   p = {}
   if name == 'LMNN':
@@ -54,7 +54,12 @@ def fast_params(name, d):
     p = dict(max_iter=120, output_iter=20, n_basis=3 * d, batch_size=5,
              k_genuine=2, k_impostor=3)
   elif name == 'RCA_Supervised':
-    p = dict(n_chunks=d + 4, chunk_size=2)
+    nch = d + 4
+    if ds is not None:
+      y = np.asarray(ds['y'])
+      feas = sum(int((y == c).sum()) // 2 for c in np.unique(y[y >= 0]))
+      nch = max(1, min(nch, feas))
+    p = dict(n_chunks=nch, chunk_size=2)
   if name in ('ITML_Supervised', 'MMC_Supervised', 'SDML_Supervised',
               'LSML_Supervised'):
     p['n_constraints'] = 40
@@ -147,7 +152,7 @@ def build(name, ds, rng, params=None, seed=0, use_fast=True, n_tuples=None,
   X = ds['X']
   d = ds['d']
   Xf = np.asarray(X, dtype=float)
-  p = fast_params(name, d) if use_fast else {}
+  p = fast_params(name, d, ds) if use_fast else {}
   p.update(params or {})
   p = resolve(name, p, d, rng)
   if name in HAS_RANDOM_STATE and 'random_state' not in p:
